@@ -595,18 +595,9 @@ func (ex *Exec) constFloat(v constant.Value) *Term {
 	if f64 < -1.7e308 {
 		return ex.b.NInf
 	}
-	// exact rational when the constant is a small exact fraction whose double round-trips to it
-	n, d := constant.Num(fv), constant.Denom(fv)
-	if n.Kind() == constant.Int && d.Kind() == constant.Int {
-		nb, ok1 := new(big.Int).SetString(n.ExactString(), 10)
-		db, ok2 := new(big.Int).SetString(d.ExactString(), 10)
-		if ok1 && ok2 && db.Sign() != 0 && nb.BitLen() < 400 && db.BitLen() < 400 {
-			r := new(big.Rat).SetFrac(nb, db)
-			if g, _ := r.Float64(); g == f64 {
-				return ex.b.Rat(r)
-			}
-		}
-	}
+	// The run-time value is the float64; it is read back as the shortest decimal that round-trips
+	// (0.01 -> 1/100, 1-1e-12 -> 999999999999/10^12), the same function on every path, whatever
+	// precision go/types happened to keep for the constant expression.
 	return ex.b.Float(f64)
 }
 
